@@ -19,6 +19,7 @@ import GoaktVerif.Lemmas.C04.LockedInv
 import GoaktVerif.Lemmas.C04.RingMain
 import GoaktVerif.Lemmas.C04.RingTrace2
 import GoaktVerif.Lemmas.C04.SegTrace5
+import GoaktVerif.Lemmas.C04.IntakeTrace
 
 namespace GoaktVerif.C04
 open GoaktVerif.Model.C04 GoaktVerif.Spec.C04
@@ -501,6 +502,35 @@ theorem segmented_fifo_exactly_once (ct n : Nat) (progs : List (List Op)) (wf : 
   have h := tr_runS ct n progs wf sched c0 [] Reach.init (tr_initS ct n progs)
   simp only [List.nil_append] at h
   exact ⟨h.len, fun t ht => ⟨h.bound t ht, h.deqd t ht⟩, h.data⟩
+
+/-! ### the Treiber intake of the bounded / stable priority mailboxes: conservation for all schedules -/
+
+open IntakeInv in
+/-- in every reachable configuration the chain from `intake.head` through `next` is the (ghost) stack, a
+drained batch is disjoint from it, and every thread's locals describe the in-place reversal and the
+walk exactly (`IntakeInv.P/J/K`, Owicki–Gries) -/
+theorem intake_invariants (k : Intake.Conf) (ct : Nat) (progs : List (List Op)) (wf : IntakeWF ct progs)
+    (c : Cfg (Intake.algo k)) (hr : Reach (Intake.algo k) (initCfg (Intake.algo k) Intake.init progs) c) :
+    ChainO c.sh.next c.sh.head c.sh.stack ∧ c.sh.stack.Nodup ∧ c.sh.batch.Nodup ∧ (∀ x ∈ c.sh.stack, x ∉ c.sh.batch) :=
+  let h := (intake_inv (k := k) ct progs wf c hr).1
+  ⟨h.st, h.nd, h.bnd, h.dj⟩
+
+open IntakeInv in
+/-- CONSERVATION between Enqueue and the heap, every schedule: with `pushed` the messages in the order of
+the successful `CAS:head` (acceptance order) and `inserted` those the consumer has moved into the heap,
+`inserted ++ (rest of the current batch) ++ reverse(stack) = pushed`: the heap receives exactly the
+accepted messages, each once, in acceptance order; for the stable variants the arrival number given to
+the next message is the number of messages inserted so far (so arrival number = position in `pushed`) -/
+theorem intake_conservation (k : Intake.Conf) (ct : Nat) (progs : List (List Op)) (wf : IntakeWF ct progs) (sched : List Nat) :
+    let c0 : Cfg (Intake.algo k) := initCfg (Intake.algo k) Intake.init progs
+    let c := runSched c0 sched
+    let evs := traceI c0 sched
+    insertedOf evs ++ c.sh.batch.drop c.sh.done ++ c.sh.stack.reverse = pushedOf evs ∧
+    (k.stable = true → c.sh.seq = (insertedOf evs).length) := by
+  intro c0 c evs
+  have h := tri_run (k := k) ct progs wf sched c0 [] Reach.init ⟨rfl, fun _ => rfl⟩
+  simp only [List.nil_append] at h
+  exact ⟨h.cons, h.seq⟩
 
 /-! ### one citation point: every mailbox kind refines its documented sequential queue
 
